@@ -967,6 +967,13 @@ class Gen(object):
             return [path]
         if isinstance(st, ast.Assign):
             val = self.expr(st.value, path)
+            if len(st.targets) == 1 and isinstance(st.targets[0], ast.Name) and isinstance(val, SList) \
+                    and st.targets[0].id in self.c.get('locals', {}) and z3.is_int_value(val.ln) and val.ln.as_long() == 0:
+                # element type of an empty list literal, from the contract's `locals` declaration
+                et = self.c['locals'][st.targets[0].id][1]
+                val = SList(z3.K(I, z3.RealVal(0) if et == 'real' else z3.IntVal(0)) if not isinstance(et, tuple)
+                            else fresh('empty', z3.ArraySort(I, sort_of(et))), z3.IntVal(0), et,
+                            z3.K(I, z3.IntVal(0)) if isinstance(et, tuple) else None)
             for t in st.targets:
                 self.assign(t, val, path, st.lineno)
             return [path]
@@ -1170,7 +1177,7 @@ class Gen(object):
                 env[a] = z3.Const(a, {'int': I, 'real': R, 'bool': B}[t])
         self.entry_env = dict(env)
         for name, (argsorts, ret) in c.get('funcs', {}).items():
-            self.specfuncs[name] = SpecFunc(name + '@' + c['name'], [sort_of(s) for s in argsorts], sort_of(ret))
+            self.specfuncs[name] = SpecFunc(name + '@spec', [sort_of(s) for s in argsorts], sort_of(ret))
         for txt in c.get('axioms', []):
             hyps.append(self.spec(txt, env))
         for txt in c.get('requires', []):
